@@ -120,8 +120,21 @@ def check_symbolic(b, counts, terms, wrt, ordering):
         _fail(b, counts, "C20.terms.order" if cls == "order" else "C20.terms.derivative", cls, w, f"terms {orig}\n got {got}\nwant {want}")
 
 
+WALK_SRC = """from formulaic.utils.structured import Structured
+def walk(obj, path=()):
+    # leaves of a structured object (keyed nodes and tuple nodes), with their paths
+    if isinstance(obj, Structured):
+        for k, v in obj._structure.items():
+            yield from walk(v, path + (k,))
+    elif isinstance(obj, tuple):
+        for i, v in enumerate(obj):
+            yield from walk(v, path + (i,))
+    else:
+        yield path, obj
+"""
+
 REPRO_STRUCT = """from formulaic import Formula
-f = Formula({text!r})
+""" + WALK_SRC + """f = {builder}
 d = f.differentiate(*{wrt!r})
 def sig(t):
     e = sorted(x.expr for x in t.factors)
@@ -132,31 +145,81 @@ def dspec(fs, wrt):
         if v not in cur: return '0'
         cur.remove(v)
     return tuple(sorted(cur)) if cur else '1'
-for part in ('lhs', 'rhs'):
-    orig = [sig(t) for t in getattr(f, part)]
-    got = [sig(t) for t in getattr(d, part)]
-    assert got == [dspec(t, {wrt!r}) for t in orig], (part, orig, got)
+orig, got = dict(walk(f)), dict(walk(d))
+assert list(orig) == list(got), ('shape changed', list(orig), list(got))
+for path in orig:
+    o = [sig(t) for t in orig[path]]
+    g = [sig(t) for t in got[path]]
+    assert g == [dspec(t, {wrt!r}) for t in o], (path, o, g)
 """
 
+SHAPES = ("two-sided", "multipart-rhs", "multipart-only", "multipart-both", "named-nested")
 
-def check_structured(b, counts, lhs_terms, rhs_terms, wrt):
-    """Two-sided formulas: differentiation maps over the parts, each part term-wise in order."""
+
+def walk(obj, path=()):
+    from formulaic.utils.structured import Structured
+
+    if isinstance(obj, Structured):
+        for k, v in obj._structure.items():
+            yield from walk(v, path + (k,))
+    elif isinstance(obj, tuple):
+        for i, v in enumerate(obj):
+            yield from walk(v, path + (i,))
+    else:
+        yield path, obj
+
+
+def structured_builder(shape, parts):
+    """Python source of a structured formula of the given shape; `parts` = 5 term lists (each with a non-intercept term)."""
+    P = [formula_text(p) for p in parts]
+    L = [" + ".join(term_text(t) for t in p if t) for p in parts]
+    if shape == "simple":
+        return f"Formula({P[0]!r})"
+    if shape == "two-sided":
+        return f"Formula({L[0] + ' ~ ' + P[1]!r})"
+    if shape == "multipart-rhs":
+        return f"Formula({L[0] + ' ~ ' + P[1] + ' | ' + P[2]!r})"
+    if shape == "multipart-only":
+        return f"Formula({P[0] + ' | ' + P[1] + ' | ' + P[2]!r})"
+    if shape == "multipart-both":
+        return f"Formula({L[0] + ' | ' + L[1] + ' ~ ' + P[2] + ' | ' + P[3] + ' | ' + P[4]!r})"
+    if shape == "named-nested":
+        lst = [term_text(t) for t in parts[1] if t]
+        return (f"Formula({P[0]!r}, x={lst!r}, n={{'u': {P[2]!r}, 'v': {L[3] + ' ~ ' + P[4]!r}}}, "
+                f"p={P[1] + ' | ' + P[2]!r})")
+    raise AssertionError(shape)
+
+
+def build(builder):
     from formulaic import Formula
 
-    text = " + ".join(term_text(t) for t in lhs_terms) + " ~ " + formula_text(rhs_terms)
-    f = Formula(text)
-    b.case(("struct", text, wrt), any(set(wrt) & set(t) for t in lhs_terms + rhs_terms), sample={"formula": text, "wrt": list(wrt)})
-    w = {"formula": text, "wrt": list(wrt), "code": REPRO_STRUCT.format(text=text, wrt=tuple(wrt))}
+    return eval(builder, {"Formula": Formula})
+
+
+def check_structured(b, counts, shape, parts, wrt):
+    """Every leaf of a structured formula (keyed parts, tuple parts of `|`, nested names) is differentiated term-wise."""
+    from formulaic.formula import SimpleFormula
+
+    builder = structured_builder(shape, parts)
+    f = build(builder)  # parsing the original formula is not C20's business
+    b.case(("struct", builder, wrt), any(set(wrt) & set(t) for p in parts for t in p), sample={"formula": builder, "wrt": list(wrt)})
+    w = {"formula": builder, "shape": shape, "wrt": list(wrt), "code": REPRO_STRUCT.format(builder=builder, wrt=tuple(wrt))}
     try:
         d = f.differentiate(*wrt)
-        parts = [(p, [term_sig(t) for t in getattr(f, p)], [term_sig(t) for t in getattr(d, p)]) for p in ("lhs", "rhs")]
+        orig, got = list(walk(f)), list(walk(d))
     except Exception as e:  # outcome of the code under test
         _fail(b, counts, "C20.terms.derivative", f"structured-raises-{type(e).__name__}", w, f"{type(e).__name__}: {e}")
         return
-    for p, orig, got in parts:
-        want = [spec_sig(d_spec(() if t == "1" else t, wrt)) for t in orig]
-        if got != want:
-            _fail(b, counts, "C20.terms.derivative", "structured-part", w, f"part {p}: terms {orig}\n got {got}\nwant {want}")
+    if [p for p, _ in orig] != [p for p, _ in got]:
+        _fail(b, counts, "C20.terms.derivative", f"structured-shape:{shape}", w, f"leaf paths {[p for p, _ in orig]} -> {[p for p, _ in got]}")
+        return
+    for (path, o), (_, g) in zip(orig, got):
+        osig = [term_sig(t) for t in o]
+        want = [spec_sig(d_spec(() if t == "1" else t, wrt)) for t in osig]
+        gsig = [term_sig(t) for t in g] if isinstance(g, SimpleFormula) else None
+        if gsig != want:
+            _fail(b, counts, "C20.terms.derivative", f"structured-part:{shape}", w, f"leaf {path}: terms {osig}\n got {gsig}\nwant {want}")
+            return
 
 
 def _fail(b, counts, clause, cls, witness, detail):
@@ -280,6 +343,118 @@ def check_numeric(b, counts, terms, wrt, data, h, output):
                   f"term `{t0}` -> `{t1}`: column {got.tolist()} but finite difference {want.tolist()}")
 
 
+REPRO_ROUTE = """import numpy as np, pandas as pd, itertools
+from formulaic import Formula, ModelSpec, model_matrix
+""" + WALK_SRC + """data = pd.DataFrame({data!r})
+f = {builder}
+wrt, h = {wrt!r}, {h!r}
+def leaves(mm):
+    return [(p, m.model_spec, np.asarray(m, dtype=float)) for p, m in walk(mm)]
+base = leaves(f.get_model_matrix(data))
+fd = [np.zeros_like(v) for _, _, v in base]
+for r in range(len(wrt) + 1):
+    for U in itertools.combinations(range(len(wrt)), r):
+        shifted = data.copy()
+        for i in U:
+            shifted[wrt[i]] = shifted[wrt[i]] + h[i]
+        for k, (_, _, v) in enumerate(leaves(f.get_model_matrix(shifted))):
+            fd[k] += (-1) ** (len(wrt) - r) * v
+fd = [v / np.prod(h) for v in fd]
+route = {route!r}
+if route == 'formula':
+    dm = model_matrix(f.differentiate(*wrt), data, context={{}})
+elif route == 'spec-unmaterialized':
+    dm = ModelSpec.from_spec(f).differentiate(*wrt).get_model_matrix(data)
+else:  # the spec(s) attached to the materialized matrices
+    dm = f.get_model_matrix(data).model_spec.differentiate(*wrt).get_model_matrix(data)
+der = leaves(dm)
+assert [p for p, _, _ in der] == [p for p, _, _ in base], 'shape changed'
+for (path, spec0, _), want, (_, dspec, dvals) in zip(base, fd, der):
+    for t0, t1 in zip(spec0.formula, dspec.formula):
+        if [x.expr for x in t1.factors] == ['0']:
+            continue
+        c0 = [c for s in spec0.structure if s.term == t0 for c in s.columns]
+        c1 = [c for s in dspec.structure if s.term == t1 for c in s.columns]
+        assert len(c0) == 1 and len(c1) == 1, ('derivative term owns no single column', path, str(t0), str(t1), c1)
+        a = dvals[:, list(dspec.column_names).index(c1[0])]
+        w_ = want[:, list(spec0.column_names).index(c0[0])]
+        assert np.array_equal(a, w_), (path, str(t0), str(t1), a, w_)
+"""
+
+ROUTES = ("formula", "spec-unmaterialized", "spec-materialized")
+
+
+def check_routes(b, counts, shape, parts, wrt, data, h, route):
+    """Materialized derivative of every leaf vs the exact finite difference of the original leaf, reached through
+    Formula.differentiate, ModelSpec(s).differentiate before materialization, and ModelSpec(s).differentiate of the
+    spec attached to the materialized matrices."""
+    import numpy as np
+    import pandas as pd
+    from formulaic import ModelSpec, model_matrix
+
+    builder = structured_builder(shape, parts)
+    f = build(builder)
+    df = pd.DataFrame(data)
+    b.case(("route", builder, wrt, tuple(h), route, tuple(sorted((k, tuple(v)) for k, v in data.items()))), bool(wrt),
+           sample={"formula": builder, "wrt": list(wrt), "route": route})
+    w = {"formula": builder, "shape": shape, "wrt": list(wrt), "h": list(h), "route": route, "data": data,
+         "code": REPRO_ROUTE.format(data=data, builder=builder, wrt=tuple(wrt), h=tuple(h), route=route)}
+
+    def leaves(mm):
+        return [(p, m.model_spec, np.asarray(m, dtype=float)) for p, m in walk(mm)]
+
+    base = leaves(f.get_model_matrix(df))  # the original formula: not C20's business
+    fd = [np.zeros_like(v) for _, _, v in base]
+    for r in range(len(wrt) + 1):
+        for U in itertools.combinations(range(len(wrt)), r):
+            shifted = df.copy()
+            for i in U:
+                shift_frame(shifted, wrt[i], h[i])
+            for k, (_, _, v) in enumerate(leaves(f.get_model_matrix(shifted))):
+                fd[k] += (-1) ** (len(wrt) - r) * v
+    fd = [v / np.prod(h) for v in fd] if wrt else [v for _, _, v in base]
+    clause = "C20.numeric" if route == "formula" else "C20.modelspec.differentiate"
+    try:
+        if route == "formula":
+            # (the derivative of a structured formula is a plain `Structured` of formulas, so it is materialized
+            # through the generic entry point rather than through a method of its own)
+            dm = model_matrix(f.differentiate(*wrt), df, context={})
+        elif route == "spec-unmaterialized":
+            dm = ModelSpec.from_spec(f).differentiate(*wrt).get_model_matrix(df)
+        else:
+            dm = f.get_model_matrix(df).model_spec.differentiate(*wrt).get_model_matrix(df)
+        der = leaves(dm)
+    except Exception as e:  # outcome of the code under test
+        _fail(b, counts, clause + ".materializes", f"{route}:raises-{type(e).__name__}", w, f"{type(e).__name__}: {e}")
+        return
+    if [p for p, _, _ in der] != [p for p, _, _ in base]:
+        _fail(b, counts, clause + ".shape", f"{route}:{shape}", w, f"leaves {[p for p, _, _ in base]} -> {[p for p, _, _ in der]}")
+        return
+    for (path, spec0, _), want, (_, dspec, dvals) in zip(base, fd, der):
+        names0, names1 = list(spec0.column_names), list(dspec.column_names)
+        if len(list(dspec.formula)) != len(list(spec0.formula)):
+            _fail(b, counts, clause + ".shape", f"{route}:term-count", w, f"leaf {path}: {spec0.formula} -> {dspec.formula}")
+            continue
+        for t0, t1 in zip(spec0.formula, dspec.formula):
+            if term_sig(t1) == "0":
+                continue
+            c0 = [c for st in spec0.structure if st.term == t0 for c in st.columns]
+            assert len(c0) == 1, ("driver: original numeric term without a single column", builder, str(t0), c0)
+            c1 = [c for st in dspec.structure if st.term == t1 for c in st.columns]
+            one = all(x.eval_method.value == "literal" for x in t1.factors)
+            if len(c1) != 1:
+                cls = ("one-term-no-column" if one else "term-no-column") if not c1 else "term-many-columns"
+                if one and not c1:
+                    cls += "-after-zero-term" if any(term_sig(t) == "0" for t in dspec.formula) else "-no-zero-term"
+                _fail(b, counts, "C20.numeric.column", cls, w, f"[{route}] leaf {path}: derivative term `{t1}` of `{t0}` owns columns {c1}; columns {names1}")
+                continue
+            got = dvals[:, names1.index(c1[0])]
+            exp = want[:, names0.index(c0[0])]
+            if not np.array_equal(got, exp):
+                _fail(b, counts, clause + ".finite-difference", f"{route}:{'one-term' if one else 'product-term'}", w,
+                      f"leaf {path}: term `{t0}` -> `{t1}`: column {got.tolist()} but finite difference {exp.tolist()}")
+
+
 # ------------------------------------------------------------------ enumeration
 def all_terms(names):
     out = [()]
@@ -325,7 +500,8 @@ def run_bounded(ctx):
     with ctx.bounded(
         "differentiate-factor-sets-random",
         rule="seeded random formulas with <= 8 terms over {a,b,c,d,`my col`, I,C,Q,log,center as columns, log(u), I(v * 2)} (unsorted factor order, 25% of the terms carry a "
-             "scaling literal 2/3/0.5/1.5 at a random position, orderings default/none/sort/"
+             "scaling literal 2/3/0.5/1.5 at a random position; 30% are also built as a structured formula of a random shape -- lhs ~ rhs, "
+             "multi-part `a | b` (tuple nodes) on one or both sides, named and nested structure -- every leaf judged on its own, orderings default/none/sort/"
              "degree) x tuples of <= 4 variables (repeats allowed, absent name e); plus 3-term formulas x 4 sampled tuples; "
              "non-trivial = some variable occurs in some term",
         exhaustive=False,
@@ -350,9 +526,19 @@ def run_bounded(ctx):
             rng.shuffle(terms)
             wrt = tuple(rng.choice(pool + ["e"]) for _ in range(rng.randint(0, 4)))
             check_symbolic(b, counts, terms, wrt, rng.choice([None, "none", "sort", "degree"]))
-            if len(terms) >= 2 and rng.random() < 0.25:
-                lhs = [t for t in terms[: len(terms) // 2] if t] or [("a",)]
-                check_structured(b, counts, lhs, terms[len(terms) // 2:], wrt)
+            if rng.random() < 0.3:
+                parts = []
+                for _p in range(5):  # 5 parts, each with at least one product term, distinct products per part
+                    part = [tuple(rng.sample(pool, rng.randint(0, 3))) for _ in range(rng.randint(1, 4))]
+                    part = list({frozenset(t): t for t in part}.values())
+                    if not any(part):
+                        part.append((rng.choice(NAMES),))
+                    if rng.random() < 0.3:
+                        k = rng.randrange(len(part))
+                        if part[k]:
+                            part[k] = (rng.choice(LITS),) + part[k]
+                    parts.append(part)
+                check_structured(b, counts, rng.choice(SHAPES), parts, wrt)
     with ctx.bounded(
         "differentiate-finite-differences",
         rule="multilinear formulas (<= 5 product terms over numeric columns a..d, 30% with a scaling literal, a third using columns "
@@ -418,6 +604,33 @@ def run_bounded(ctx):
                 data["u"] = [float(rng.choice([0.5, 1, 2, 4, 8])) for _ in range(rows)]
             h = [rng.choice([1.0, 2.0, 0.5]) for _ in wrt]
             check_numeric(b, counts, terms, wrt, data, h, outputs[i % 3] if ctx.thorough or i % 4 == 0 else "pandas")
+    with ctx.bounded(
+        "differentiate-structured-routes",
+        rule="multilinear formulas over numeric columns a..d (30% with a scaling literal) in 6 shapes (plain, lhs ~ rhs, multi-part "
+             "`|` on the rhs / alone / on both sides, named nested structure) x tuples of <= 2 variables x 3 routes to the derivative's "
+             "matrices (Formula.differentiate, ModelSpec(s).differentiate before materialization, ModelSpec(s).differentiate of the "
+             "spec attached to the materialized matrices); every leaf's non-zero derivative columns vs the exact iterated finite "
+             "difference of that leaf of the original matrices; non-trivial = at least one variable",
+        exhaustive=False,
+        bound="5 parts of <= 3 terms, factors <= 3, wrt length <= 2",
+    ) as b:
+        shapes = ("simple",) + SHAPES
+        for i in range(360 if ctx.thorough else 72):
+            parts = []
+            for _p in range(5):
+                part = list({frozenset(t): t for t in (tuple(rng.sample(NAMES, rng.randint(0, 3))) for _ in range(rng.randint(1, 3)))}.values())
+                if not any(part):
+                    part.append((rng.choice(NAMES),))
+                if rng.random() < 0.3:
+                    j = rng.randrange(len(part))
+                    if part[j]:
+                        part[j] = (rng.choice(LITS),) + part[j]
+                parts.append(part)
+            present = sorted({x for p in parts for t in p for x in variables_of(t)})
+            wrt = tuple(rng.choice(present) for _ in range(rng.randint(1, 2)))
+            data = {n: [float(rng.choice([-3, -2, -1, 0, 1, 2, 3, 4, 0.5, 1.5])) for _ in range(5)] for n in NAMES}
+            h = [rng.choice([1.0, 2.0, 0.5]) for _ in wrt]
+            check_routes(b, counts, shapes[i % len(shapes)], parts, wrt, data, h, ROUTES[(i // len(shapes)) % 3])
     ctx.assume(
         "C20-scope: factors are plain (optionally back-quoted) column names and use_sympy=False; a variable 'occurs' in a term "
         "iff it is one of its factors (function-call factors such as log(a) are outside 'products of distinct factors')",
